@@ -4,7 +4,8 @@
 # (VERIF_REPO), removes the worktree.  Prints one summary line per check.
 diff=$(realpath "$1"); shift
 wt=/var/tmp/mutwt-$$
-git -C /repo worktree add -q --detach "$wt" HEAD || exit 2
+for try in 1 2 3 4 5; do git -C /repo worktree add -q --detach "$wt" HEAD 2>/dev/null && break; sleep $((RANDOM % 4 + 1)); done
+[ -d "$wt" ] || { echo "worktree add failed"; exit 2; }
 trap 'git -C /repo worktree remove --force "$wt" >/dev/null 2>&1' EXIT
 ( cd "$wt" && git apply "$diff" ) || { echo "apply failed: $diff"; exit 2; }
 for id in "$@"; do
